@@ -34,3 +34,199 @@ def r11_7_units(ctx: Ctx) -> RuleResult:
     from ..dims import units_rule
 
     return units_rule(ctx, "R11.7", "C11", 40)
+
+
+# ------------------------------------------------------------------------------------------- sign discipline
+
+
+def _sign_of_use(node: ast.AST, stop: ast.AST) -> int:
+    """Net sign with which `node` enters the enclosing expression: flipped by being the right operand of `-`, by unary
+    minus, and by being an argument of a `_minus_*` helper."""
+    sign = 1
+    n = node
+    while n is not stop and n is not None:
+        p = getattr(n, "_parent", None)
+        if isinstance(p, ast.BinOp) and isinstance(p.op, ast.Sub) and p.right is n:
+            sign = -sign
+        elif isinstance(p, ast.UnaryOp) and isinstance(p.op, ast.USub):
+            sign = -sign
+        elif isinstance(p, ast.Call) and n in p.args and isinstance(p.func, ast.Attribute) and p.func.attr.lstrip("_").startswith("minus"):
+            sign = -sign
+        elif isinstance(p, ast.AugAssign) and isinstance(p.op, ast.Sub) and p.value is n:
+            sign = -sign
+        if isinstance(p, ast.stmt):
+            break
+        n = p
+    return sign
+
+
+SIGN_TABLE = [
+    # (function, attribute read that carries the offset, expected sign, meaning)
+    ("Instant._plus", "offset.nanoseconds", +1, "instant -> local adds the offset"),
+    ("Instant._safe_plus", "offset.nanoseconds", +1, "instant -> local adds the offset"),
+    ("_LocalInstant._minus", "offset.nanoseconds", -1, "local -> instant subtracts the offset"),
+    ("_LocalInstant._safe_minus", "offset.nanoseconds", -1, "local -> instant subtracts the offset"),
+    ("OffsetDateTime._ctor", "offset.nanoseconds", +1, "instant + offset = local"),
+    ("OffsetDateTime.__to_elapsed_time_since_epoch", "_offset_nanoseconds", -1, "local - offset = instant"),
+    ("OffsetDateTime.with_offset", "offset.nanoseconds", +1, "new local = old local + new offset - old offset"),
+    ("OffsetDateTime.with_offset", "_offset_nanoseconds", -1, "new local = old local + new offset - old offset"),
+    ("Duration._plus_small_nanoseconds", "small_nanos", +1, "helper adds"),
+    ("Duration._minus_small_nanoseconds", "small_nanos", -1, "helper subtracts"),
+]
+
+
+@rule("C11")
+def r11_4_sign_discipline(ctx: Ctx) -> RuleResult:
+    rr = RuleResult("R11.4", "instant -> local adds the offset, local -> instant subtracts it, at every conversion site", min_instances=10)
+    for q, attr, want, why in SIGN_TABLE:
+        f = ctx.M.func(q)
+        uses = []
+        for n in ast.walk(f.node):
+            txt = unparse(n) if isinstance(n, (ast.Attribute, ast.Name)) else ""
+            if txt.endswith(attr) and isinstance(getattr(n, "ctx", None), ast.Load):
+                par = getattr(n, "_parent", None)
+                if isinstance(par, ast.Attribute):
+                    continue  # a longer chain (e.g. offset.nanoseconds.bit_length) - not the quantity itself
+                if isinstance(par, ast.Compare) or (isinstance(par, ast.Call) and unparse(par.func).endswith("_check_argument_range")):
+                    continue  # guards do not count
+                uses.append(n)
+        rr.inst()
+        if not uses:
+            rr.fail(q, f"no arithmetic use of `{attr}` found (expected: {why})", ctx.loc(f))
+            continue
+        signs = {_sign_of_use(u, f.node) for u in uses}
+        if signs == {want}:
+            rr.ok({"fn": q, "quantity": attr, "sign": "+" if want > 0 else "-", "uses": len(uses)})
+        else:
+            rr.fail(q, f"`{attr}` enters the result with sign {sorted(signs)} but {why} (expected {'+' if want > 0 else '-'})", ctx.loc(f, uses[0]))
+    return rr
+
+
+@rule("C11")
+def r11_3_packed_layout(ctx: Ctx) -> RuleResult:
+    rr = RuleResult("R11.3", "OffsetTime packs nanosecond-of-day | offset_seconds << BITS; mask = 2^BITS-1 covers a day; every decoder uses the same shift/mask", min_instances=6)
+    M = ctx.M
+    c = M.cls("OffsetTime")
+    BITS = M.fold_class_const("OffsetTime", mangle("OffsetTime", "__NANOSECONDS_BITS"))
+    MASK = M.fold_class_const("OffsetTime", mangle("OffsetTime", "__NANOSECONDS_MASK"))
+    NPD = M.fold_class_const("PyodaConstants", "NANOSECONDS_PER_DAY")
+    if not all(isinstance(x, int) for x in (BITS, MASK, NPD)):
+        raise AnalysisError("OffsetTime layout constants not foldable")
+    rr.inst()
+    if MASK == (1 << BITS) - 1 and (1 << BITS) > NPD - 1:
+        rr.ok({"bits": BITS, "mask": MASK, "covers": NPD - 1})
+    else:
+        rr.fail("OffsetTime", f"mask {MASK} / bits {BITS} do not form a field wide enough for a nanosecond-of-day (< {NPD})", c.mod.rel)
+    field = mangle("OffsetTime", "__nanoseconds_and_offset")
+    # encoders
+    for f in c.all_defs:
+        for n in ast.walk(f.node):
+            if isinstance(n, ast.Assign) and isinstance(n.targets[0], ast.Attribute) and mangle("OffsetTime", n.targets[0].attr) == field:
+                rr.inst()
+                v = n.value
+                ok = False
+                if isinstance(v, ast.BinOp) and isinstance(v.op, ast.BitOr):
+                    for lo, hi in ((v.left, v.right), (v.right, v.left)):
+                        if isinstance(hi, ast.BinOp) and isinstance(hi.op, ast.LShift) and M.fold(hi.right, c, c.mod) == BITS and not isinstance(lo, ast.BinOp):
+                            ok = "nano" in unparse(lo) and "offset" in unparse(hi.left)
+                elif isinstance(v, ast.Name) and "zero_offset" in v.id:
+                    ok = True  # offset 0: the packed value is the nanosecond-of-day itself
+                if ok:
+                    rr.ok({"encoder": f.qual, "expr": unparse(v)})
+                else:
+                    rr.fail(f.qual, f"packs `{unparse(v)}`: not nanosecond_of_day | offset_seconds << {BITS}", ctx.loc(f, n))
+    # decoders
+    spec = {"nanosecond_of_day": ("and", MASK), "_offset_seconds": ("shr", BITS), "_offset_nanoseconds": ("shr", BITS)}
+    for name, (kind, k) in spec.items():
+        f = M.find_method(c, name)
+        if f is None:
+            raise AnalysisError(f"OffsetTime.{name} missing")
+        rr.inst()
+        good = False
+        for n in ast.walk(f.node):
+            if isinstance(n, ast.BinOp) and isinstance(n.left, ast.Attribute) and mangle("OffsetTime", n.left.attr) == field:
+                if kind == "and" and isinstance(n.op, ast.BitAnd) and M.fold(n.right, c, c.mod) == k:
+                    good = True
+                if kind == "shr" and isinstance(n.op, ast.RShift) and M.fold(n.right, c, c.mod) == k:
+                    good = True
+        if good:
+            rr.ok({"decoder": f.qual, "op": kind, "const": k})
+        else:
+            rr.fail(f.qual, f"does not decode the packed field with {'& ' + str(k) if kind == 'and' else '>> ' + str(k)}", ctx.loc(f))
+    return rr
+
+
+@rule("C11")
+def r11_5_zoned_offset_rederived(ctx: Ctx) -> RuleResult:
+    """A zoned value built from an instant gets its offset from the zone for that very instant; an offset read from an existing
+    value is only ever combined with that value's own instant; subtraction of two values goes through to_instant()."""
+    from ..terms import Store, TermEval, show, sym
+
+    rr = RuleResult("R11.5", "zoned values re-derive the offset from the zone for the same instant; value - value subtracts instants", min_instances=4)
+    M = ctx.M
+    # (a) ZonedDateTime.__init__: both instant arms pass offset = zone.get_utc_offset(instant)
+    f = M.func("ZonedDateTime.__init__")
+    n_sites = 0
+    for n in ast.walk(f.node):
+        if isinstance(n, ast.Call) and unparse(n.func).endswith("OffsetDateTime._ctor"):
+            kw = {k.arg: k.value for k in n.keywords}
+            if "instant" in kw:
+                n_sites += 1
+                rr.inst()
+                o = kw.get("offset")
+                good = isinstance(o, ast.Call) and isinstance(o.func, ast.Attribute) and o.func.attr == "get_utc_offset" and unparse(o.func.value) == "zone" and [unparse(a) for a in o.args] == [unparse(kw["instant"])]
+                if good:
+                    rr.ok({"site": unparse(n)[:100]})
+                else:
+                    rr.fail(f.qual, f"offset for the instant is `{unparse(o) if o is not None else None}`, not zone.get_utc_offset({unparse(kw['instant'])})", ctx.loc(f, n))
+    if n_sites < 2:
+        raise AnalysisError("ZonedDateTime.__init__: instant construction arms not found")
+    # (b) inside ZonedDateTime / OffsetDateTime arithmetic, `self.offset` may only accompany `self.to_instant()` shifted results through a
+    #     constructor that re-derives (ZonedDateTime(...)) - never a trusted ZonedDateTime._ctor with a moved instant
+    zc = M.cls("ZonedDateTime")
+    for g in zc.all_defs:
+        for n in ast.walk(g.node):
+            if isinstance(n, ast.Call) and unparse(n.func).endswith("ZonedDateTime._ctor"):
+                rr.inst()
+                txt = unparse(n)
+                if "self.offset" in txt or "self._ZonedDateTime__offset_date_time.offset" in txt:
+                    rr.fail(g.qual, f"builds a zoned value through the trusted constructor re-using this value's offset: `{txt[:120]}` (the offset must be re-derived from the zone for the new instant)", ctx.loc(g, n))
+                else:
+                    rr.ok({"site": txt[:100]})
+    for q in ("ZonedDateTime.__add__",):
+        g = M.func(q)
+        rr.inst()
+        outs = TermEval(M, ctx.R, g, inline_depth=0).run(Store({p.arg: sym(p.arg) for p in g.value_params}))
+        good = False
+        for ret, _ in outs:
+            if ret is not None and ret[0] == "call" and ret[1].endswith("ZonedDateTime.__init__"):
+                kw = dict(ret[3])
+                if kw.get("zone") is not None and "zone" in show(kw["zone"]) and kw.get("instant") is not None and "to_instant" in show(kw["instant"]):
+                    good = True
+        if good:
+            rr.ok({"fn": q, "via": "ZonedDateTime(instant=..., zone=self.zone, ...) (offset re-derived)"})
+        else:
+            rr.fail(q, f"result is not rebuilt through ZonedDateTime(instant=<moved instant>, zone=self.zone, ...): {[show(o[0]) for o in outs if o[0] is not None][:2]}", ctx.loc(g))
+    # (c) OffsetDateTime - OffsetDateTime
+    g = M.func("OffsetDateTime.__sub__")
+    rr.inst()
+    found = False
+    for n in ast.walk(g.node):
+        if isinstance(n, ast.BinOp) and isinstance(n.op, ast.Sub) and unparse(n.left) == "self.to_instant()" and unparse(n.right).endswith(".to_instant()"):
+            found = True
+    if found:
+        rr.ok({"fn": g.qual, "difference": "self.to_instant() - other.to_instant()"})
+    else:
+        rr.fail(g.qual, "value - value is not computed as the difference of the two instants", ctx.loc(g))
+    return rr
+
+
+@rule("C11")
+def r11_6_zoned_clock(ctx: Ctx) -> RuleResult:
+    from .c19 import r19_4_zoned_and_system_clock
+
+    r = r19_4_zoned_and_system_clock(ctx)
+    r.rule = "R11.6"
+    for f in r.findings:
+        f.rule = "R11.6"
+    return r
